@@ -545,10 +545,27 @@ class SReal:
             s = d._const_sign()
             if s is not None:
                 return {"lt": s < 0, "le": s <= 0, "gt": s > 0, "ge": s >= 0, "eq": s == 0, "ne": s != 0}[op]
-            if op in ("eq", "ne") and isinstance(d.v, Sym) and d.v.rf is not None:
-                num = SReal(Sym((d.v.rf[0], P.P_ONE))).z()
-                e = (num == 0)
-                return SBool.mk(e if op == "eq" else z3.Not(e))
+            if isinstance(d.v, Sym) and d.v.rf is not None:
+                num, den = d.v.rf
+                if op in ("eq", "ne") or den == P.P_ONE:
+                    # canonical atom: (numerator with positive leading coefficient) op 0
+                    _, lc = P.p_lead(num)
+                    if lc < 0:
+                        num = P.p_neg(num)
+                        op = {"lt": "gt", "le": "ge", "gt": "lt", "ge": "le", "eq": "eq", "ne": "ne"}[op]
+                    t = SReal(Sym((num, P.P_ONE))).z()
+                    zero = z3.RealVal(0)
+                    if op == "lt":
+                        return SBool.mk(t < zero)
+                    if op == "le":
+                        return SBool.mk(t <= zero)
+                    if op == "gt":
+                        return SBool.mk(t > zero)
+                    if op == "ge":
+                        return SBool.mk(t >= zero)
+                    if op == "eq":
+                        return SBool.mk(t == zero)
+                    return SBool.mk(z3.Not(t == zero))
         za, zb = self.z(), o.z()
         if op == "lt":
             return SBool.mk(za < zb)
